@@ -7,6 +7,7 @@ Reflected (values read from the imported classes of the tree under check, never 
   ExtendedMessage sizes, REFRESH.*, RequirePath.SEND/RECEIVE, Graceful masks, HostName.HOSTNAME_MAX_LEN.
 Probed by execution on two fixed inputs (the outcome must be one of two whitelisted behaviours):
   LOCAL_AS_FROM_CAP     Negotiated.local_as for a 4-byte local AS: 2-octet OPEN field (false) or ASN4 capability (true)
+  UNKNOWN_PARAM_SUBCODE subcode of the NOTIFICATION for an unknown optional parameter type (0 or 4)
   COLLISION_ON_TRUE_AS  Negotiated.validate iBGP router-id collision test uses the 2-octet field (false) or the true peer AS (true)
 Fail closed: a missing name, a non-integer, an unexpected registered capability code, an unexpected
 probe outcome or an `exabgp` imported from another tree all raise.
@@ -77,7 +78,18 @@ def _probe():
         collision_true_as = True
     else:
         raise Untranslatable(f'probe: unexpected validate() outcome {err_new}')
-    return local_from_cap, collision_true_as
+    # unknown optional parameter type: RFC 4271 6.2 says 2/4 (Unsupported Optional Parameter); the code said 2/0
+    from exabgp.bgp.message.notification import Notify
+
+    neg = Negotiated(neighbor(True), Direction.IN)
+    try:
+        Message.unpack(Message.CODE.OPEN, bytes([4, 0xFD, 0xE9, 0, 90, 1, 2, 3, 4, 4, 3, 2, 0, 0]), neg)
+        raise Untranslatable('probe: an unknown optional parameter was accepted')
+    except Notify as exc:
+        if (exc.code, exc.subcode) not in ((2, 0), (2, 4)):
+            raise Untranslatable(f'probe: unknown optional parameter answered {exc.code}/{exc.subcode}')
+        unknown_param = int(exc.subcode)
+    return local_from_cap, collision_true_as, unknown_param
 
 
 def main(repo, gen_dir):
@@ -163,9 +175,10 @@ def main(repo, gen_dir):
     if (RequirePath.RECEIVE, RequirePath.SEND) != (1, 2):
         raise Untranslatable('RequirePath bits are not RECEIVE=1, SEND=2 (the model tests these two bits)')
 
-    local_from_cap, collision_true_as = _probe()
+    local_from_cap, collision_true_as, unknown_param = _probe()
     lines.append(f'Definition LOCAL_AS_FROM_CAP : bool := {"true" if local_from_cap else "false"}.')
     lines.append(f'Definition COLLISION_ON_TRUE_AS : bool := {"true" if collision_true_as else "false"}.')
+    lines.append(f'Definition UNKNOWN_PARAM_SUBCODE : Z := {unknown_param}.')
 
     write_if_changed(os.path.join(gen_dir, 'Gen_Registry.v'), '\n'.join(lines) + '\n')
-    return {'LOCAL_AS_FROM_CAP': local_from_cap, 'COLLISION_ON_TRUE_AS': collision_true_as}
+    return {'LOCAL_AS_FROM_CAP': local_from_cap, 'COLLISION_ON_TRUE_AS': collision_true_as, 'UNKNOWN_PARAM_SUBCODE': unknown_param}
